@@ -121,7 +121,13 @@ def check(rep, tier, seed):
     for si, (s, r, sts) in enumerate(zip(sess, res, states)):
         stats["by_class"][s["cls"]] = stats["by_class"].get(s["cls"], 0) + 1
         pan = P.panics(r)
-        if pan or r["outcome"] not in ("waiting",) or len(r["waits"]) != len(s["keys"]) + 1:
+        # C-d on an empty buffer ends the call with EOF: the frames up to there are judged, the keys after it were never read
+        ended_by_eof = (not pan) and r["outcome"] == "exit" and any(e.get("err") == "eof" for e in P.returns(r)) \
+            and 1 <= len(r["waits"]) <= len(s["keys"]) and s["keys"][len(r["waits"]) - 1] == b"\x04" \
+            and not r["waits"][-1]["snap"]["line"]
+        if ended_by_eof:
+            stats["sessions_ended_by_eof_on_empty_buffer"] = stats.get("sessions_ended_by_eof_on_empty_buffer", 0) + 1
+        elif pan or r["outcome"] not in ("waiting",) or len(r["waits"]) != len(s["keys"]) + 1:
             bad.append({"session": {"cls": s["cls"], "width": s["width"], "prompt": s["prompt"], "keys": [list(k) for k in s["keys"]]},
                         "failure": "session did not complete: %s" % r["outcome"], "panics": [(p["msg"], p["frames"][:4]) for p in pan][:1]})
             continue
